@@ -147,7 +147,7 @@ def correspond_tables(ctx, cases):
     from ..c19_oracle import VEC_ELEMS
     rng = ctx.rng
     meshes = ['tri-delaunay', 'quad-jiggled', 'tet-struct', 'hex-jiggled', 'line-random', 'tri-struct', 'tet-delaunay']
-    for c in range(ctx.n(14, 60)):
+    for c in range(ctx.n(10, 60)):
         mname = meshes[c % len(meshes)]
         fam = O1.FAMILY[mname]
         m = O1.make_mesh(mname, rng.randrange(10 ** 6))
@@ -232,7 +232,7 @@ def correspond(ctx, gen_ok):
     def wfield(nt, nq):
         wt = [[rng.randint(-2, 3) for _ in range(nq)] for _ in range(nt)]
         return wt, DiscreteField(np.array(wt, dtype=float).reshape(nt, nq))
-    for c in range(ctx.n(40, 200)):
+    for c in range(ctx.n(28, 200)):
         Nu, Nv = rng.randint(1, 4), rng.randint(1, 4)
         if c < 10:
             while Nv == Nu:
@@ -335,8 +335,38 @@ def correspond(ctx, gen_ok):
                      dict(info, got=[int(x) for x in M.blocks], expected=want))
     correspond_tables(ctx, cases)
     if gen_ok:
-        ctx.corr('blocks', IMPORTS, 'run', 'cout_eqb', cases, per_file=25, defs=DEFS, nontrivial=lambda r: r[1])
+        ctx.corr('blocks', IMPORTS, 'run', 'cout_eqb', cases, per_file=(34 if ctx.quick() else 25), defs=DEFS, nontrivial=lambda r: r[1])
         ctx.sample({'kind': 'stub local matrices (input term, implementation output)', 'input': cases[0][0][:500], 'output': cases[0][1][:300]})
+
+
+
+def _compile_stage(ctx, rels):
+    """compile independent files in parallel, with the bookkeeping of Ctx.compile_dyn (one obligation per lemma)"""
+    import os as _os
+    from ..core import scan_forbidden
+    res = ctx.coqc_many(rels)
+    allok = True
+    for rel in rels:
+        path = _os.path.join(ctx.bdir, rel)
+        txt = open(path).read()
+        names = [m.group(2) for m in ctx._thm_re.finditer(txt)]
+        bad = scan_forbidden([path])
+        ok, out, err, secs = res[rel]
+        if bad:
+            ok = False
+            err = 'forbidden construct: ' + '; '.join(bad)
+        ctx.log(f'coqc {rel}: {"ok" if ok else "FAILED"} ({secs:.1f}s, {len(names)} lemmas)')
+        failed_at = None
+        if not ok:
+            allok = False
+            failed_at = ctx._failing_theorem(txt, err)
+            ctx.broken.append({'kind': 'proof', 'name': f'{rel}:{failed_at or "?"}', 'detail': err[-1500:]})
+        seen_fail = False
+        for nm in names:
+            if not ok and (failed_at is None or nm == failed_at):
+                seen_fail = True
+            ctx.obligations.append({'name': f'{rel}:{nm}', 'kind': 'generated', 'ok': ok or not seen_fail})
+    return allok
 
 
 def run(ctx):
@@ -364,12 +394,14 @@ def run(ctx):
         gen_ok = False
     comp_ok = False
     if gen_ok:
-        gen_ok = ctx.compile_dyn(['gen/C01Gen.v', 'gen/C19Gen.v', 'gen/C19Comp.v'])
+        gen_ok = _compile_stage(ctx, ['gen/C01Gen.v', 'gen/C19Gen.v', 'gen/C19Comp.v'])
     if gen_ok:
         ctx.write('dyn/C01Tie.v', open(os.path.join(COQ, 'dyn', 'C01', 'C01Tie.v')).read())
         dyn = ctx.copy_dyn()
         order = ['dyn/C19Tie.v', 'dyn/C19Bmat.v', 'dyn/C19CompTie.v']
-        ctx.compile_dyn(['dyn/C01Tie.v'] + order + [f for f in dyn if f not in order])
+        _compile_stage(ctx, ['dyn/C01Tie.v'])
+        _compile_stage(ctx, ['dyn/C19Tie.v', 'dyn/C19Bmat.v'])
+        _compile_stage(ctx, ['dyn/C19CompTie.v'] + [f for f in dyn if f not in order])
         if known_bmat:
             # the finding is listed: its Coq side is the refutation; if that no longer compiles the entry is stale
             ctx.write('dyn/C19BmatKnown.v', 'From Coq Require Import List.\nImport ListNotations.\n'
